@@ -27,9 +27,9 @@ def build(prop):
     for cont, pre in ((0, 1), (1, 1), (0, 2), (1, 6), (1, 7)):
         for opk in (0, 1, 2):
             if (pre, opk) == (6, 1): continue      # erase(key) of a 7-fold run: measured memory-out at 30 GB; the 3-fold run (prefix 7) is used instead, the long run is in the thorough tier
+            if (cont, pre, opk) == (1, 1, 1): continue   # multiset erase(key) on distinct keys: 15 M variables / 22 min, thorough tier (the duplicate-run prefix 7 covers erase(key) of a multiset)
             qs.append(mk(prop, cont, 4, 4, 0, pre, 1, 0, True, opk=opk))
-    qs.append(mk(prop, 0, 4, 4, 0, 1, 1, 0, True, opk=3))
-    qs.append(mk(prop, 1, 4, 4, 0, 2, 1, 0, True, opk=3))
+    # erase(iterator): measured 10-25 min and 8-14 GB per query; the quick tier keeps the underflow-between-unequal-siblings shape, the other shapes are in the thorough tier
     qs.append(mk(prop, 0, 4, 4, 0, 9, 1, 0, True, opk=3)); qs.append(mk(prop, 0, 4, 4, 0, 9, 1, 0, True, opk=2))   # underflow with unequal siblings: shift from the fuller side
     for opk in (0, 1, 2, 3): qs.append(mk(prop, 0, 4, 4, 0, 8, 1, 0, True, opk=opk))      # emptying the tree and growing the first leaf
     for opk in (0, 1, 2): qs.append(mk(prop, 0, 4, 4, 1, 1, 1, 0, True, opk=opk))          # binary in-node search
